@@ -141,7 +141,7 @@ def run(plan, tier, replay_path=None):
         traces, inputs = plan.replay(payload)
     else:
         for name, module, cfg, root, expect in plan.model_runs(tier):
-            r = tlc.model_check(module, cfg, root_text=root, timeout=900, tag="mc_" + name)
+            r = tlc.model_check(module, cfg, root_text=root, timeout=900 if tier != "thorough" else 3000, tag="mc_" + name)
             rec = {"config": name, "states": r.distinct, "transitions": r.generated, "depth": r.depth,
                    "violated": r.violated, "expected_violated": expect, "wall_s": round(r.wall, 1),
                    "actions_taken": {k: v[1] for k, v in sorted(r.coverage.items()) if v[1] > 0 and k[0].isupper()}}
